@@ -25,7 +25,7 @@ def from_corpus(case):
     names = sorted(set(r[0] for r in case['rows']))
     new = ['~z', 'a', '10', '9', ' ', 'Zz', '00', 'b', 'x1', 'x2', 'x3', 'x4', 'x5', 'x6'][:len(names)]
     return dict(case, rename=dict(zip(names, new)))
-WEIGHTS = {'layered': 7, 'merge_chain': 4, 'split_candidate': 3, 'ref_window': 3, 'exact_counts': 2}
+WEIGHTS = {'layered': 7, 'handover': 4, 'merge_chain': 4, 'split_candidate': 3, 'ref_window': 3, 'exact_counts': 2}
 TARGETS = S.NAME_POOL + S.CONFUSABLE + ['', ' ', 'B', 'Z', 'z', '~', '!', '01', '001', 'a b', 'NaN', 'None', '-1']
 
 
